@@ -10,6 +10,22 @@ class NotEncodable(Exception):
     pass
 
 
+class StopPath(Exception):
+    """raised by a contract to abandon the current path (the caller has recorded what it needs)"""
+    pass
+
+
+class Any(dict):
+    """opaque aggregate: every field / dereference yields another opaque value"""
+    def __missing__(self, k):
+        v = Any()
+        self[k] = v
+        return v
+
+    def get(self):
+        return self
+
+
 INT = {"u8": (8, False), "u16": (16, False), "u32": (32, False), "u64": (64, False), "usize": (64, False), "u128": (128, False),
        "i8": (8, True), "i16": (16, True), "i32": (32, True), "i64": (64, True), "isize": (64, True), "i128": (128, True)}
 
@@ -48,9 +64,11 @@ class Ref:
 
 
 class Machine:
-    def __init__(self, mir_text, contracts=None):
+    def __init__(self, mir_text, contracts=None, havoc=False):
         self.fns = parse(mir_text)
         self.contracts = contracts or {}
+        self.havoc = havoc          # unknown callees return an unconstrained opaque value (over-approximation)
+        self.nfresh = 0
         self.panics = []          # list of (condition under which a panic/assert failure happens, message)
         self.steps = 0
 
@@ -105,7 +123,15 @@ class Machine:
         b, path = self.place(fr, s)
         v = fr[b]
         for p in path:
-            v = v.get() if p == "*" else v[p]
+            if p == "*":
+                v = v.get()
+            elif isinstance(v, dict) and p not in v and not isinstance(v, Any):
+                if not self.havoc:
+                    raise NotEncodable("field %r of an aggregate that does not have it" % (p,))
+                v[p] = Any()
+                v = v[p]
+            else:
+                v = v[p]
         return v
 
     def write(self, fr, s, val):
@@ -202,6 +228,9 @@ class Machine:
             if m.group(1) == "Not":
                 return Not(v) if is_bool(v) else ~v
             return fpNeg(v) if is_fp(v) else -v
+        m = re.fullmatch(r"(.*) as .* \(PointerCoercion.*\)", rv)
+        if m:
+            return self.operand(fr, m.group(1))
         m = re.fullmatch(r"(.*) as (\w+) \((\w+)\)", rv)
         if m:
             v = self.operand(fr, m.group(1))
@@ -233,7 +262,27 @@ class Machine:
         m = re.fullmatch(r"discriminant\((.*)\)", rv)
         if m:
             v = self.read(fr, m.group(1))
+            if isinstance(v, dict) and "disc" not in v:
+                if not (self.havoc or isinstance(v, Any)):
+                    raise NotEncodable("discriminant of an aggregate without one")
+                self.nfresh += 1
+                v["disc"] = BitVec("havoc%d" % self.nfresh, 64)
             return v["disc"] if isinstance(v, dict) else v
+        if rv.startswith("[") and rv.endswith("]"):
+            inner = rv[1:-1]
+            mrep = re.fullmatch(r"(.*); (\d+)", inner)
+            if mrep:
+                v = self.operand(fr, mrep.group(1))
+                return {i: v for i in range(int(mrep.group(2)))}
+            return {i: self.operand(fr, p) for i, p in enumerate(split_top(inner))}
+        m = re.fullmatch(r"(?:std::option::)?Option::<.*>::Some\((.*)\)", rv)
+        if m:
+            return {"disc": BitVecVal(1, 64), "Some": {0: self.operand(fr, m.group(1))}}
+        if re.fullmatch(r"(?:std::option::)?Option::<.*>::None", rv):
+            return {"disc": BitVecVal(0, 64)}
+        m = re.fullmatch(r"(?:std::result::)?Result::<.*>::(Ok|Err)\((.*)\)", rv)
+        if m:
+            return {"disc": BitVecVal(0 if m.group(1) == "Ok" else 1, 64), m.group(1): {0: self.operand(fr, m.group(2))}}
         m = re.fullmatch(r"\((.*),\)", rv)
         if m:
             return {0: self.operand(fr, m.group(1))}
@@ -307,6 +356,9 @@ class Machine:
                 m = re.fullmatch(r"switchInt\((.*)\) -> \[(.*)\]", st)
                 if m:
                     v = self.operand(fr, m.group(1))
+                    if isinstance(v, Any) or v is None:
+                        self.nfresh += 1
+                        v = BitVec("havoc%d" % self.nfresh, 64)
                     targets = [t.split(": ") for t in split_top(m.group(2))]
                     otherwise = dict((k, t) for k, t in targets).get("otherwise")
                     cases = [(int(k), t) for k, t in targets if k != "otherwise"]
@@ -322,10 +374,16 @@ class Machine:
                     rest = BoolVal(True)
                     for k, t in cases:
                         c = vs == BitVecVal(k, vs.size())
-                        results.append((c, self.exec(f, self.copy_frame(fr), t, And(pc, c))))
+                        try:
+                            results.append((c, self.exec(f, self.copy_frame(fr), t, And(pc, c))))
+                        except StopPath:
+                            pass
                         rest = And(rest, Not(c))
                     if otherwise and f.blocks[otherwise] != ["unreachable"]:
-                        results.append((rest, self.exec(f, self.copy_frame(fr), otherwise, And(pc, rest))))
+                        try:
+                            results.append((rest, self.exec(f, self.copy_frame(fr), otherwise, And(pc, rest))))
+                        except StopPath:
+                            pass
                     return self.merge(results)
                 m = re.fullmatch(r"(.+?) = (.+\)) -> \[return: (bb\d+).*\]", st)
                 if m:
@@ -339,12 +397,25 @@ class Machine:
                             if depth == 0:
                                 callee, argtxt = body[:i].strip(), body[i + 1:-1]
                                 break
-                    argv = [self.operand(fr, a) for a in split_top(argtxt)]
+                    argv = []
+                    for a in split_top(argtxt):
+                        try:
+                            argv.append(self.operand(fr, a))
+                        except (NotEncodable, KeyError, AttributeError, TypeError):
+                            if not self.havoc:
+                                raise
+                            argv.append(Any())
                     self.write(fr, dst, self.do_call(callee, argv, pc))
                     break
                 m = re.fullmatch(r"(.+?) = (.+)", st)
                 if m:
-                    self.write(fr, m.group(1), self.rvalue(f, fr, m.group(1), m.group(2)))
+                    try:
+                        val = self.rvalue(f, fr, m.group(1), m.group(2))
+                    except (NotEncodable, KeyError, AttributeError, TypeError):
+                        if not self.havoc:
+                            raise
+                        val = Any()          # over-approximation: the value is unconstrained
+                    self.write(fr, m.group(1), val)
                     continue
                 raise NotEncodable("statement " + st)
             if nxt is None:
@@ -386,6 +457,10 @@ class Machine:
                 def get(s):
                     return box
             return self.call(name, [R(), tup[0]], pc)
+        if self.havoc:
+            self.nfresh += 1
+            ret = None
+            return Any({"havoc": callee})
         raise NotEncodable("no contract for " + callee)
 
     def copy_frame(self, fr):
